@@ -68,8 +68,20 @@ func sameAccount(addr1, addr2 string) bool {
 	return addr1 == addr2 || string(address.FormatAddrKey(addr1)) == string(address.FormatAddrKey(addr2))
 }
 
+// addExecAmount 合约子账户金额累加, 子账户没有MaxTokenBalance限制, 这里只防止int64溢出
+func addExecAmount(balance, amount int64) (int64, error) {
+	if amount > 0 && balance+amount < balance {
+		return balance, types.ErrAmount
+	}
+	return balance + amount, nil
+}
+
 // TransferToExec transfer coins from address to exec address
 func (acc *DB) TransferToExec(from, to string, amount int64) (*types.Receipt, error) {
+	//先判断合约子账户不会溢出, 保证下面的存款不会失败
+	if _, err := addExecAmount(acc.LoadExecAccount(from, to).GetBalance(), amount); err != nil {
+		return nil, err
+	}
 	receipt, err := acc.Transfer(from, to, amount)
 	if err != nil {
 		return nil, err
@@ -117,9 +129,13 @@ func (acc *DB) ExecFrozen(addr, execaddr string, amount int64) (*types.Receipt, 
 		alog.Error("ExecFrozen", "balance", acc1.Balance, "amount", amount)
 		return nil, types.ErrNoBalance
 	}
+	frozen, err := addExecAmount(acc1.Frozen, amount)
+	if err != nil {
+		return nil, err
+	}
 	copyacc := types.CloneAccount(acc1)
 	acc1.Balance -= amount
-	acc1.Frozen += amount
+	acc1.Frozen = frozen
 	receiptBalance := &types.ReceiptExecAccountTransfer{
 		ExecAddr: execaddr,
 		Prev:     copyacc,
@@ -142,8 +158,12 @@ func (acc *DB) ExecActive(addr, execaddr string, amount int64) (*types.Receipt, 
 	if acc1.Frozen-amount < 0 {
 		return nil, types.ErrNoBalance
 	}
+	balance, err := addExecAmount(acc1.Balance, amount)
+	if err != nil {
+		return nil, err
+	}
 	copyacc := types.CloneAccount(acc1)
-	acc1.Balance += amount
+	acc1.Balance = balance
 	acc1.Frozen -= amount
 	receiptBalance := &types.ReceiptExecAccountTransfer{
 		ExecAddr: execaddr,
@@ -169,11 +189,15 @@ func (acc *DB) ExecTransfer(from, to, execaddr string, amount int64) (*types.Rec
 	if accFrom.GetBalance()-amount < 0 {
 		return nil, types.ErrNoBalance
 	}
+	toBalance, err := addExecAmount(accTo.GetBalance(), amount)
+	if err != nil {
+		return nil, err
+	}
 	copyaccFrom := types.CloneAccount(accFrom)
 	copyaccTo := types.CloneAccount(accTo)
 
 	accFrom.Balance -= amount
-	accTo.Balance += amount
+	accTo.Balance = toBalance
 
 	receiptBalanceFrom := &types.ReceiptExecAccountTransfer{
 		ExecAddr: execaddr,
@@ -205,11 +229,15 @@ func (acc *DB) ExecTransferFrozen(from, to, execaddr string, amount int64) (*typ
 	if b < 0 {
 		return nil, types.ErrNoBalance
 	}
+	toBalance, err := addExecAmount(accTo.GetBalance(), amount)
+	if err != nil {
+		return nil, err
+	}
 	copyaccFrom := types.CloneAccount(accFrom)
 	copyaccTo := types.CloneAccount(accTo)
 
 	accFrom.Frozen -= amount
-	accTo.Balance += amount
+	accTo.Balance = toBalance
 
 	receiptBalanceFrom := &types.ReceiptExecAccountTransfer{
 		ExecAddr: execaddr,
@@ -236,6 +264,10 @@ func (acc *DB) ExecAddress(name string) string {
 func (acc *DB) ExecDepositFrozen(addr, execaddr string, amount int64) (*types.Receipt, error) {
 	if addr == execaddr {
 		return nil, types.ErrSendSameToRecv
+	}
+	//先判断冻结金额不会溢出, 保证增发之后的冻结存款不会失败
+	if _, err := addExecAmount(acc.LoadExecAccount(addr, execaddr).GetFrozen(), amount); err != nil {
+		return nil, err
 	}
 	//issue coins to exec addr
 	receipt1, err := acc.ExecIssueCoins(execaddr, amount)
@@ -278,8 +310,12 @@ func (acc *DB) execDepositFrozen(addr, execaddr string, amount int64) (*types.Re
 		return nil, types.ErrAmount
 	}
 	acc1 := acc.LoadExecAccount(addr, execaddr)
+	frozen, err := addExecAmount(acc1.Frozen, amount)
+	if err != nil {
+		return nil, err
+	}
 	copyacc := types.CloneAccount(acc1)
-	acc1.Frozen += amount
+	acc1.Frozen = frozen
 	receiptBalance := &types.ReceiptExecAccountTransfer{
 		ExecAddr: execaddr,
 		Prev:     copyacc,
@@ -299,8 +335,12 @@ func (acc *DB) ExecDeposit(addr, execaddr string, amount int64) (*types.Receipt,
 		return nil, types.ErrAmount
 	}
 	acc1 := acc.LoadExecAccount(addr, execaddr)
+	balance, err := addExecAmount(acc1.Balance, amount)
+	if err != nil {
+		return nil, err
+	}
 	copyacc := types.CloneAccount(acc1)
-	acc1.Balance += amount
+	acc1.Balance = balance
 	receiptBalance := &types.ReceiptExecAccountTransfer{
 		ExecAddr: execaddr,
 		Prev:     copyacc,
